@@ -19,6 +19,8 @@ def main():
         import check_c12 as m
     elif pid == "C04":
         import check_c04 as m
+    elif pid == "C05":
+        import check_c05 as m
     elif pid == "C06":
         import check_c06 as m
     elif pid == "C18":
